@@ -376,3 +376,86 @@ func ZZHarnessC10Duties() {
 	}
 	zzReach("end")
 }
+
+// ZZHarnessC10ValueChange: a duty that needs two rounds and ends on another value than the one first proposed
+// (round 1: the leader S proposes its own input A, the round fails unprepared; round 2: the next leader proposes B,
+// B is decided). Everything the correct operator S sends - its proposal, its round-change, its prepare and commit for
+// B - and the aggregated decided message listing S are validated by a correct peer in order and in time: nothing may
+// be rejected, everything is accepted.
+func ZZHarnessC10ValueChange() {
+	mv := zzValidator(zzGenesis)
+	share := zzShare(4)
+	pk := make([]byte, 48)
+	role := spectypes.BNRoleAttester
+	msgID := spectypes.NewMsgID(mv.netCfg.Domain, pk, role)
+	slot := zzConcretizeU64(zzNondetRange("slot", 100, 103)) // all leader rotations
+	n := uint64(4)
+	leaderOf := func(r uint64) spectypes.OperatorID { return share.Committee[(slot%n+r-1)%n].OperatorID }
+	S := leaderOf(1)
+	A, B := []byte{0xA1}, []byte{0xB2}
+	rootA, _ := zzValHashDataRoot(A)
+	rootB, _ := zzValHashDataRoot(B)
+	sig := func() []byte {
+		s := make([]byte, 96)
+		s[0] = 1
+		return s
+	}
+	one := func(t specqbft.MessageType, round uint64, root [32]byte, signer spectypes.OperatorID, full []byte) *specqbft.SignedMessage {
+		return &specqbft.SignedMessage{Signature: sig(), Signers: []spectypes.OperatorID{signer}, FullData: full,
+			Message: specqbft.Message{MsgType: t, Height: specqbft.Height(slot), Round: specqbft.Round(round), Identifier: msgID[:], Root: root}}
+	}
+	// the decided aggregate lists S and two more members, ascending
+	var agg []spectypes.OperatorID
+	for _, c := range share.Committee {
+		if len(agg) < 3 && (c.OperatorID == S || len(agg) < 2 || containsOp(agg, S)) {
+			agg = append(agg, c.OperatorID)
+		}
+	}
+	if !containsOp(agg, S) {
+		agg[len(agg)-1] = S
+		for i := len(agg) - 1; i > 0 && agg[i] < agg[i-1]; i-- {
+			agg[i], agg[i-1] = agg[i-1], agg[i]
+		}
+	}
+	decided := one(specqbft.CommitMsgType, 2, rootB, S, B)
+	decided.Signers = agg
+	type step struct {
+		m     *specqbft.SignedMessage
+		after int64
+	}
+	seq := []step{
+		{one(specqbft.ProposalMsgType, 1, rootA, S, A), 4},
+		{one(specqbft.RoundChangeMsgType, 2, [32]byte{}, S, nil), 6},
+		{one(specqbft.PrepareMsgType, 2, rootB, S, nil), 6},
+		{one(specqbft.CommitMsgType, 2, rootB, S, nil), 6},
+		{decided, 6},
+	}
+	var lastRecv int64
+	for i, st := range seq {
+		recv := int64(zzGenesis) + int64(slot)*12 + st.after + int64(zzNondetRange("recvOffset", 0, 1))
+		zzAssume(recv >= lastRecv)
+		lastRecv = recv
+		mv.netCfg.Beacon.(*zzBeacon).now = recv
+		_, _, err := mv.validateConsensusMessage(share, st.m, msgID, time.Unix(recv, 0), func() error { return nil })
+		if err != nil {
+			var ve Error
+			if errors.As(err, &ve) {
+				zzAssert(!ve.Reject(), "honest-message-of-a-two-round-duty-never-rejected")
+				zzReach("ignored:" + ve.text)
+			}
+			zzAssert(false, "in-order-timely-honest-message-of-a-two-round-duty-accepted")
+		} else if i == len(seq)-1 {
+			zzReach("decided-accepted")
+		}
+	}
+	zzReach("end")
+}
+
+func containsOp(l []spectypes.OperatorID, x spectypes.OperatorID) bool {
+	for _, y := range l {
+		if y == x {
+			return true
+		}
+	}
+	return false
+}
